@@ -17,6 +17,7 @@ def register(S):
                         "slot_well_formed": ("slot_ok(self._dict[key])", P10),
                         "other_ids_untouched": ("unchanged_except(self._dict, key)", P10)},
                raises={}, modifies=["self._dict"])
+    S.contracts[F + "add"].effect_free = True
     S.contract(F + "decref", params={"self": "obj:RefCountingColl", "key": "val", "count": "int"}, requires=[WF, "count >= 0"],
                ensures={"count_returned": ("boxes(self._dict, key) == after_decref(old(boxes(self._dict, key)), count)", P10),
                         "was_present": ("old(haskey(self._dict, key))", P10),
